@@ -13,6 +13,7 @@ import (
 	"github.com/ipfs/go-datastore"
 
 	"github.com/celestiaorg/go-header"
+	"github.com/celestiaorg/go-header/verifhook"
 )
 
 // OnDelete implements [header.Store] interface.
@@ -242,6 +243,7 @@ func (s *Store[H]) DeleteRange(ctx context.Context, from, to uint64) error {
 		return err
 	}
 
+	verifhook.At("store.DeleteRange.afterSync")
 	// load current head and tail
 	head, err := s.Head(ctx)
 	if err != nil {
